@@ -583,6 +583,14 @@ fn judge_eof_propagation(kept: &mut Vec<Popen>) {
         if sim().poisoned.is_some() {
             return;
         }
+        // a child between fork and exec holds a copy of everything for an instant; only what
+        // survives exec counts, so every pending child gets to exec before a verdict
+        let exec_pending = || {
+            let pending: Vec<i32> = sim().k.procs.values().filter(|c| c.state == PState::PreExec).map(|c| c.pid).collect();
+            for c in pending {
+                sim().step_entity(Ent::Proc(c));
+            }
+        };
         let pid = p.pid().map(|x| x as i32).unwrap_or(-1);
         // the child must have applied its pre-exec calls
         if sim().k.procs.get(&pid).map(|c| c.state == PState::PreExec).unwrap_or(false) {
@@ -591,6 +599,7 @@ fn judge_eof_propagation(kept: &mut Vec<Popen>) {
         if let Some(f) = p.stdin.take() {
             let pi = desc_of_parent_fd(f.as_raw_fd()).and_then(pipe_of_desc);
             drop(f);
+            exec_pending();
             if let Some(pi) = pi {
                 let (w_open, wdesc, creator) = {
                     let pp = &sim().k.pipes[pi];
@@ -612,6 +621,7 @@ fn judge_eof_propagation(kept: &mut Vec<Popen>) {
         let outs: Vec<(usize, &'static str)> = [(p.stdout.as_ref(), "stdout"), (p.stderr.as_ref(), "stderr")].iter().filter_map(|(f, n)| f.and_then(|f| desc_of_parent_fd(f.as_raw_fd())).and_then(pipe_of_desc).map(|pi| (pi, *n))).collect();
         if !outs.is_empty() && pid > 0 {
             kill_pid(pid);
+            exec_pending();
             for (pi, name) in outs {
                 let (w_open, wdesc, creator) = {
                     let pp = &sim().k.pipes[pi];
